@@ -282,6 +282,14 @@ const TB_SAMPLES: &[TbSample] = &[
                quadratic_ok: &[], const_conds: &[] },
     TbSample { name: "array-constant-slots-in-loop", src: "template T(n) {\n signal input in; signal output out;\n var acc[2] = [1, 2];\n for (var i = 0; i < n; i++) { acc[1] = acc[0] + 1; }\n out <-- acc[1] * in;\n}\n",
                quadratic_ok: &["out"], const_conds: &[] },
+    TbSample { name: "array-slot-reset-around-read-in-loop", src: "template T() {\n signal input a; signal input x; signal input y; signal output b[2];\n var arr[2] = [a, a];\n for (var i = 0; i < 2; i++) { arr[0] = 0; b[i] <-- arr[1] * x * y; arr[0] = 1; }\n}\n",
+               quadratic_ok: &[], const_conds: &[] },
+    TbSample { name: "array-slot-reset-around-call-in-loop", src: "template T() {\n signal input a; signal output b[2];\n var arr[2] = [a, a];\n for (var i = 0; i < 2; i++) { arr[0] = 0; b[i] <-- cube(arr[1]); arr[0] = 1; }\n}\n",
+               quadratic_ok: &[], const_conds: &[] },
+    TbSample { name: "array-slot-reset-around-ternary-in-loop", src: "template T() {\n signal input a; signal input x; signal output b[2];\n var arr[2] = [a, a];\n for (var i = 0; i < 2; i++) { arr[0] = 0; b[i] <-- arr[1] == 5 ? x : x * x; arr[0] = 1; }\n}\n",
+               quadratic_ok: &[], const_conds: &[] },
+    TbSample { name: "array-first-write-after-unknown-degree", src: "template T() {\n signal input a; signal output b;\n var w[3];\n w[0] = a > 3 ? 1 : 0;\n w[1] = 1;\n b <-- w[0];\n}\n",
+               quadratic_ok: &[], const_conds: &[] },
     TbSample { name: "constant-overwritten-in-loop", src: "template T(n) {\n signal input in; signal output out;\n var c = 5;\n for (var i = 0; i < n; i++) { c = c * 2; }\n var r = 0;\n if (c == 5) { r = 1; }\n out <== in * r;\n}\n",
                quadratic_ok: &[], const_conds: &[] },
 ];
